@@ -849,7 +849,8 @@ def strategies(deep=False):
             if T == 'real':
                 k = draw(st.integers(16, 40))
                 mag = max(abs(base), Fraction(1, 10 ** 30))
-                e10 = len(str(mag.numerator)) - len(str(mag.denominator))
+                # decimal magnitude from bit lengths (str() of a huge integer exceeds Python's conversion limit)
+                e10 = int((mag.numerator.bit_length() - mag.denominator.bit_length()) * 0.30103)
                 delta = Fraction(10) ** (e10 - k)
                 rhs = _num(T, base + draw(st.sampled_from([-1, 1])) * delta)
             else:
